@@ -310,7 +310,7 @@ theorem monok_emit_other (hist : List Out) (v : View) (o : Out) (ho : isWD o = f
   cases o <;> first | rfl | cases ho
 
 theorem monok_fin (hist : List Out) (v : View) (i : Nat) (o : Outcome) (h : MonOK hist v) :
-    MonOK hist ((v.upd i toDone).emit (.done i o)) := by
+    MonOK hist (((v.upd i toDone).dropL i).emit (.done i o)) := by
   obtain ⟨m, hm, ht⟩ := h
   refine ⟨clearOwner m i, ?_, fun htr => ti_fin m v.cores i (ht htr)⟩
   show monRun none (hist ++ (v.out ++ [.done i o])) = some _
